@@ -208,6 +208,12 @@ func c10(c *evid.Ctx) {
 				if fam == 0 {
 					vs = append(vs, variant{"exact, v4-mapped form of A", &net.UDPAddr{IP: gen.V4Mapped(A.IP), Port: port()}, str(tokA), true})
 				}
+				{
+					// a neighbour: same /24 (IPv4) or same /64 (IPv6), another host
+					nb := append(net.IP(nil), A.IP...)
+					nb[len(nb)-1] ^= byte(1 + r.Intn(255))
+					vs = append(vs, variant{"token of A used by a neighbouring address", &net.UDPAddr{IP: nb, Port: port()}, str(tokA), false})
+				}
 				flips := 6
 				if ci%5 == 0 || !c.Quick() {
 					flips = 8 * len(tokA)
